@@ -53,12 +53,13 @@ pub fn unit(c: &ConeSpec) -> Vec<f64> {
 }
 
 /// dense operator of the block the cone hands to the KKT matrix (diagonal, or packed upper triangle) applied to x
-fn apply_block(b: &SymBattery, x: &[f64]) -> Vec<f64> {
+fn apply_block(b: &SymBattery, x: &[f64]) -> Vec<f64> { apply_block_of(&b.hs_block, b.hs_is_diagonal, x) }
+fn apply_block_of(hs_block: &[f64], diagonal: bool, x: &[f64]) -> Vec<f64> {
     let n = x.len();
-    if b.hs_is_diagonal { return (0..n).map(|i| b.hs_block.get(i).copied().unwrap_or(f64::NAN) * x[i]).collect(); }
+    if diagonal { return (0..n).map(|i| hs_block.get(i).copied().unwrap_or(f64::NAN) * x[i]).collect(); }
     let mut m = vec![vec![0.0; n]; n];
     let mut k = 0;
-    for j in 0..n { for i in 0..=j { let v = b.hs_block.get(k).copied().unwrap_or(f64::NAN); m[i][j] = v; m[j][i] = v; k += 1; } }
+    for j in 0..n { for i in 0..=j { let v = hs_block.get(k).copied().unwrap_or(f64::NAN); m[i][j] = v; m[j][i] = v; k += 1; } }
     (0..n).map(|i| (0..n).map(|j| m[i][j] * x[j]).sum()).collect()
 }
 
@@ -106,7 +107,15 @@ pub fn event(id: usize, c: &ConeSpec, s: &[f64], z: &[f64], x: &[f64], y: &[f64]
     //  extra KKT rows and columns, whose elimination is compared with mul_Hs under C11)
     let expanded = matches!(c, ConeSpec::Soc(n) if *n > 4);
     if !expanded { put("block_is_mul_hs", dist(&apply_block(&b, x), &b.hs_x), norm(&b.hs_x)); }
+    // ... for an expanded cone the block is diagonal plus rank two, eta^2 (D + uu' - vv'): the same operator again
+    if expanded { put("expanded_block_is_mul_hs", dist(&b.expanded_x, &b.hs_x), norm(&b.hs_x)); }
     put("mul_hs_is_wtw", dist(&b.hs_x, &wtwx), norm(&b.hs_x));
+    // the same object put back to the identity scaling (start of a second solve): every representation is the identity
+    // again, exactly (tolerance independent of the conditioning of the scaling that was there before)
+    let idt = eps * mmin / (kap * kap) * 1e-3;        // = 1e-14
+    put("identity_reset_mul_hs", dist(&b.ident_hs_x, x) / idt * eps, norm(x));
+    let blk_x = if expanded { b.ident_expanded_x.clone() } else { apply_block_of(&b.ident_block, b.hs_is_diagonal, x) };
+    put("identity_reset_block", dist(&blk_x, x) / idt * eps, norm(x));
     // Jordan product by definition, commutative, unit element
     let xy = jordan(c, x, y);
     put("circ_definition", dist(&b.x_circ_y, &xy), norm(x) * norm(y));
@@ -137,7 +146,7 @@ pub fn record(seed: u64, count: usize) -> (Vec<Value>, Value) {
         let mut z = gen::interior(&c, &mut rng, true);
         let family = ["centred", "centred", "magnitudes", "near_boundary"][rng.gen_range(0..4)];
         match family {
-            "magnitudes" => { let (a, b) = (10f64.powf(gen::unif(&mut rng, -4.0, 4.0)), 10f64.powf(gen::unif(&mut rng, -4.0, 4.0))); for v in s.iter_mut() { *v *= a; } for v in z.iter_mut() { *v *= b; } }
+            "magnitudes" => { let (a, b) = (10f64.powf(gen::unif(&mut rng, -10.0, 4.0)), 10f64.powf(gen::unif(&mut rng, -10.0, 4.0))); for v in s.iter_mut() { *v *= a; } for v in z.iter_mut() { *v *= b; } }
             "near_boundary" => { let rel = 10f64.powf(gen::unif(&mut rng, -6.0, -2.0)); if rng.gen::<bool>() { s = near_boundary_point(&c, &mut rng, rel); } else { z = near_boundary_point(&c, &mut rng, rel); } }
             _ => {}
         }
